@@ -3,6 +3,7 @@ package main
 // Thorough tier extras: cross-solver agreement and the must-fail corpus.
 
 import (
+	"context"
 	"crypto/sha256"
 	"encoding/hex"
 	"fmt"
@@ -12,6 +13,7 @@ import (
 	"sort"
 	"strings"
 	"sync"
+	"time"
 )
 
 type crossStats struct {
@@ -118,10 +120,21 @@ func selfTest(verif, repo, prop, work string) *selfTestResult {
 				continue
 			}
 		}
-		c := exec.Command(self, "check", prop, "--tier", "quick", "--repo", wt, "--contracts", contractPath(repo), "--verif", verif, "--no-evidence")
+		ctx, cancel := context.WithTimeout(context.Background(), 12*time.Minute)
+		c := exec.CommandContext(ctx, self, "check", prop, "--tier", "quick", "--repo", wt, "--contracts", contractPath(repo), "--verif", verif, "--no-evidence")
 		out, _ := c.CombinedOutput()
-		code := c.ProcessState.ExitCode()
+		code := -1
+		if c.ProcessState != nil {
+			code = c.ProcessState.ExitCode()
+		}
+		timedOut := ctx.Err() != nil
+		cancel()
 		cleanup()
+		if timedOut {
+			res.Skipped = append(res.Skipped, id+": the check did not finish within 12 minutes on the changed tree")
+			res.Lines = append(res.Lines, fmt.Sprintf("SELFTEST property=%s seeded-change=%s not decided (time limit)", prop, id))
+			continue
+		}
 		if code == 1 && strings.Contains(string(out), "VIOLATION property="+prop) {
 			res.Caught = append(res.Caught, id)
 			res.Lines = append(res.Lines, fmt.Sprintf("SELFTEST property=%s seeded-change=%s caught", prop, id))
